@@ -11,6 +11,9 @@ FPoolC == << [logic |-> "CTL", f |-> <<"E", <<"U", P, Q>>>>],
              [logic |-> "LTL", f |-> <<"A", <<"imp", <<"X", Q>>, <<"U", P, Q>>>>>>],
              [logic |-> "CTLS", f |-> <<"A", <<"G", <<"or", Q, <<"E", <<"X", P>>>>>>>>>>],
              [logic |-> "CTLS", f |-> <<"and", <<"E", <<"F", <<"G", P>>>>>>, <<"E", <<"and", <<"X", P>>, <<"F", Q>>>>>>>>] >>
+BadPoolC == << [logic |-> "LTL", f |-> <<"A", <<"F", <<"E", <<"G", P>>>>>>>>], [logic |-> "CTL", f |-> <<"A", <<"G", <<"F", P>>>>>>],
+              [logic |-> "CTLS", f |-> <<"U", P, <<"X", Q>>>>], [logic |-> "CTL", f |-> <<"X", P>>], [logic |-> "LTL", f |-> <<"E", <<"F", P>>>>] >>
+BadPoolQ == <<BadPoolC[1]>>
 KPoolQ == <<K1, K2>>
 FPoolQ == <<FPoolC[1], FPoolC[3], FPoolC[5]>>
 ====
